@@ -151,6 +151,10 @@ def launch(cell):
     FPS, C = pb.Unit.FPS, pb.Unit.Celsius
     ammo = pb.Ammo(pb.DragModel(0.3, pb.TableG7), FPS(v0), C(t0c), temp_modifier=mod, use_powder_sensitivity=on)
     atmo = pb.Atmo(pb.Unit.Foot(0), pb.Unit.InHg(29.92), C(air_c), 0.0, C(powder_c) if powder_c is not None else None)
+    if len(cell) > 7 and cell[7] == 'vac':
+        # an atmosphere without air still has a temperature, and the powder has it too (round 10)
+        atmo = pb.Vacuum(pb.Unit.Foot(0), C(air_c))
+        powder_c = None
     shot = pb.Shot(pb.Weapon(pb.Unit.Inch(2)), ammo, atmo=atmo)
     out = []
     pt = atmo.powder_temp >> C
@@ -262,6 +266,7 @@ def plan(tier):
     la = [list(c) for c in itertools.product([0.0, 0.015, -0.01], v0s, [15.0, 0.0], [15.0, -20.0, 35.0], [None, 15.0, 40.0, 0.0],
                                              [True, False])]
     la += [c + [pu] for c in la[::4] for pu in ('Celsius', 'Kelvin')]
+    la += [c + ['Fahrenheit', 'vac'] for c in la if len(c) == 6 and c[4] is None]
     eds = ['mv', 'pt', 'mod', 'off', 'recalib']
     ed = [[f, list(e)] for f in ('none', 'query', 'calib', 'fire') for d in (1, 2) for e in itertools.permutations(eds, d)]
     return [('calib', cal), ('same', sm), ('launch', la), ('edit', ed)]
